@@ -208,7 +208,7 @@ pub fn build(
     scope: &[ItemPath],
     is_vfunc: bool,
     function: &grammar::Function,
-) -> Result<Function, anyhow::Error> {
+) -> Result<Option<Function>, anyhow::Error> {
     let mut body = is_vfunc.then(|| FunctionBody::Vftable {
         function_name: function.name.0.clone(),
     });
@@ -275,31 +275,31 @@ pub fn build(
         );
     };
 
-    let arguments = function
+    // A type that can't be resolved yet (it may only come into existence later, like
+    // a generated vftable type) defers the function, just as it would for a field.
+    let Some(arguments) = function
         .arguments
         .iter()
         .map(|a| match a {
-            grammar::Argument::ConstSelf => Ok(Argument::ConstSelf),
-            grammar::Argument::MutSelf => Ok(Argument::MutSelf),
-            grammar::Argument::Named(name, type_) => Ok(Argument::Field(
+            grammar::Argument::ConstSelf => Some(Argument::ConstSelf),
+            grammar::Argument::MutSelf => Some(Argument::MutSelf),
+            grammar::Argument::Named(name, type_) => Some(Argument::Field(
                 name.0.clone(),
-                type_registry
-                    .resolve_grammar_type(scope, type_)
-                    .ok_or_else(|| {
-                        anyhow::anyhow!(
-                            "failed to resolve type of field `{:?}` ({:?})",
-                            name,
-                            type_
-                        )
-                    })?,
+                type_registry.resolve_grammar_type(scope, type_)?,
             )),
         })
-        .collect::<anyhow::Result<Vec<_>>>()?;
+        .collect::<Option<Vec<_>>>()
+    else {
+        return Ok(None);
+    };
 
-    let return_type = function
-        .return_type
-        .as_ref()
-        .and_then(|t| type_registry.resolve_grammar_type(scope, t));
+    let return_type = match &function.return_type {
+        Some(t) => match type_registry.resolve_grammar_type(scope, t) {
+            Some(t) => Some(t),
+            None => return Ok(None),
+        },
+        None => None,
+    };
 
     let calling_convention = calling_convention.unwrap_or_else(|| {
         // Assume that if the function has a self argument, it's a thiscall function, otherwise it's "system"
@@ -315,7 +315,7 @@ pub fn build(
         }
     });
 
-    Ok(Function {
+    Ok(Some(Function {
         visibility: function.visibility.into(),
         name: function.name.0.clone(),
         doc,
@@ -323,5 +323,5 @@ pub fn build(
         arguments,
         return_type,
         calling_convention,
-    })
+    }))
 }
